@@ -313,7 +313,7 @@ off64_t _GD_LzmaSeek(struct gd_raw_file_* file, off64_t count,
 
   lzd = (struct gd_lzmadata *)file->edata;
 
-  if (mode != GD_FILE_WRITE) {
+  if (!(mode & GD_FILE_WRITE)) {
     /* the easy case -- position is somewhere within our current output buffer
      */
     if (byte_count < lzd->xz.total_out && byte_count >= BASE(*lzd)) {
@@ -370,6 +370,7 @@ off64_t _GD_LzmaSeek(struct gd_raw_file_* file, off64_t count,
     }
   } else {
     /* we only get here when we need to pad */
+    memset(lzd->data_in, 0, GD_LZMA_DATA_IN);
     while (lzd->xz.total_in < byte_count) {
       int n = byte_count - lzd->xz.total_in;
       if (n > GD_LZMA_DATA_IN)
@@ -472,6 +473,7 @@ int _GD_LzmaClose(struct gd_raw_file_ *file)
   }
 
   file->idata = -1;
+  file->mode = 0;
   free(file->edata);
   file->edata = NULL;
   dreturn("%i", 0);
